@@ -69,10 +69,31 @@ def make_cases(tier, seed, n_random=None, n_grammars=None, n_merge=None):
             sr = "Q"
         cases.append(dict(kind="cfg", name=f"{name}/map{i % len(dom_conv.TERMINAL_MAPS)}", g=dom_conv.relabel_grammar(g, mp),
                           sr=sr, maxbytes=5 if quick else 6))
+        if i % 3 == 0 and g.rules:
+            # rules under one head whose bodies differ as symbol strings but coincide after encoding ('ab' vs 'a' 'b'), plus an exact
+            # duplicate: their weights must add up in the byte grammar (strengthened after seeded change C17-3)
+            gc = _colliding(g, rng)
+            if gc is not None:
+                cases.append(dict(kind="cfg", name=f"{name}/collide", g=dom_conv.relabel_grammar(gc, dom_conv.TERMINAL_MAPS[2]),
+                                  sr=sr, maxbytes=5 if quick else 6))
     for i, (name, parts) in enumerate(dom_conv.merge_groups(rng, n_merge)):
         cases.append(dict(kind="merge", name=name, parts=parts, sr=["Q", "FloatFrac", "Boolean"][i % 3],
                           recursion=["right", "left"][i % 2], maxbytes=maxbytes))
     return cases
+
+
+def _colliding(g, rng):
+    from fractions import Fraction
+    from vlib.spec.algebra import Q
+    h = rng.choice(sorted({r[1] for r in g.rules}, key=repr))
+    ws = [Fraction(1, d) for d in (3, 5, 7)]
+    extra = [(ws[0], h, ("a",)), (ws[1], h, ("b", "c")), (ws[2], h, ("a",)), (ws[0], h, ("b", "c"))]
+    gc = G(g.S, frozenset(g.V) | {"a", "b", "c"}, list(g.rules) + extra)
+    for scale in (1, 4, 16):
+        gs = G(gc.S, gc.V, [(w / scale, hh, b) for w, hh, b in gc.rules])
+        if domains.convergent_scale(gs, Q, candidates=(1,), keep_weights=True) is not None:
+            return gs
+    return None
 
 
 # ------------------------------------------------------------------------------------------------- helpers
